@@ -286,7 +286,8 @@ def monitor(case, out):
             if h is None: raise Bad("harness-inconsistent", f"callback for unknown handle {i}")
             rq0 = h["req"] | POLLERR | POLLHUP
             if (w[1] == "io" and i in fed and int(w[3]) == POLLOUT and
-                    (batch is None or not any(f == h["fd"] and m & rq0 for f, m in batch[batch_pos[0]:]))):
+                    (batch is None or h["req"] == 0 or
+                     not any(f == h["fd"] and m & rq0 for f, m in batch[batch_pos[0]:]))):
                 fed.discard(i)
                 if h["closed"]: raise Bad("cb-after-stop", f"pending callback for closed watcher {i}")
                 continue
@@ -328,7 +329,7 @@ def monitor(case, out):
             if i in expected: expected[i] = None
             # position in the batch: first entry of this fd not yet consumed (for the non-triviality rule)
             for k in range(batch_pos[0], len(batch)):
-                if batch[k][0] == h["fd"]:
+                if batch[k][0] == h["fd"] and batch[k][1] & (req | POLLERR | POLLHUP):
                     batch_pos[0] = k + 1; break
             continue
         if w[0] == "cb" and w[1] == "close":
